@@ -947,3 +947,425 @@ theorem session_strip (r : R) (env : List Ans) (n : Nat) :
       exact ⟨by rw [this.1], this.2⟩
 
 end Reconnect
+
+namespace Reconnect
+open ConnScript
+open Spec.Reconnect (failures reported closedIds sessClauses sessBuildClauses)
+
+/-! ### the flat-script oracle holds of every session -/
+
+/-- `serve` never panics from a state in use and hangs only on an exhausted script. -/
+theorem serve_definite (r : R) (env : List Ans) (hs : r.st ≠ .spent) :
+    (serve r env).2.2 ≠ .panic ∧ ((serve r env).2.2 = .hang → (serve r env).2.1 = []) := by
+  unfold serve drive
+  by_cases he : r.error.isSome = true
+  · cases hr : r.error with
+    | none => simp [hr] at he
+    | some e => simp [call, hr]
+  · simp only [he]
+    obtain ⟨h1, h2, h3⟩ := driveLoop_outcome r env hs
+    rcases hd : driveLoop r env with ⟨r1, env1, p⟩
+    rw [hd] at h1 h2 h3
+    simp only at h1 h2 h3
+    cases p with
+    | ready =>
+      obtain ⟨hc, _⟩ := h3 rfl
+      unfold call
+      rcases hc with hc | ⟨c, hc⟩
+      · cases hr : r1.error with
+        | none => simp [hr] at hc
+        | some e => simp [hr]
+      · cases hr : r1.error <;> simp [hc, hr]
+    | failed e => simp
+    | pending => simpa using h2
+    | panic => exact absurd rfl h1
+
+/-- Everything the flat-script oracle asks of a session, from any state in use with no stored
+error. `pre` is whatever part of the script was consumed before (building an eager channel). -/
+theorem session_facts (n : Nat) : ∀ (r : R) (env : List Ans), r.error = none → r.st ≠ .spent →
+    Res.panic ∉ (session r env n).1 ∧
+    (Res.hang ∈ (session r env n).1 → (session r env n).2.2 = []) ∧
+    (∀ e, Res.closed e ∈ (session r env n).1 → e ∈ failures env) := by
+  induction n with
+  | zero => intro r env _ _; simp [session]
+  | succ n ih =>
+    intro r env he hs
+    have hd := serve_definite r env hs
+    have hns := serve_not_spent r env hs
+    obtain ⟨used, h1, _, h3, h4⟩ := serve_consumes r env he
+    unfold session
+    rcases hsv : serve r env with ⟨r', env', res⟩
+    rw [hsv] at hd hns h1 h3 h4
+    simp only at hd hns h1 h3 h4
+    cases res with
+    | closed e =>
+      refine ⟨by simp [List.mem_replicate], by simp [List.mem_replicate], ?_⟩
+      intro e' he'
+      simp only [List.mem_replicate] at he'
+      obtain ⟨_, he'⟩ := he'
+      cases he'
+      rw [h1, failures_append]
+      exact List.mem_append_left _ (h3 e rfl)
+    | hang => simpa using hd.2
+    | panic => exact absurd rfl hd.1
+    | resp c =>
+      obtain ⟨i1, i2, i3⟩ := ih r' env' (h4 (by simp) (by simp) (by simp)) (hns trivial)
+      refine ⟨by simpa using i1, by simpa using i2, ?_⟩
+      intro e he'
+      simp only [List.mem_cons] at he'
+      rcases he' with he' | he'
+      · cases he'
+      · rw [h1, failures_append]
+        exact List.mem_append_right _ (i3 e he')
+    | err e0 =>
+      obtain ⟨i1, i2, i3⟩ := ih r' env' (h4 (by simp) (by simp) (by simp)) (hns trivial)
+      refine ⟨by simpa using i1, by simpa using i2, ?_⟩
+      intro e he'
+      simp only [List.mem_cons] at he'
+      rcases he' with he' | he'
+      · cases he'
+      · rw [h1, failures_append]
+        exact List.mem_append_right _ (i3 e he')
+
+theorem closedIds_all (rs : List Res) (p : Nat → Bool) (h : ∀ e, Res.closed e ∈ rs → p e = true) :
+    (closedIds rs).all p = true := by
+  simp only [List.all_eq_true, closedIds, List.mem_filterMap]
+  rintro e ⟨r, hr, hre⟩
+  cases r <;> simp at hre
+  subst hre
+  exact h _ hr
+
+/-- The session part of the oracle holds, relative to any script `full` that ends with `env`. -/
+theorem session_clauses (r : R) (pre env : List Ans) (n : Nat) (he : r.error = none)
+    (hs : r.st ≠ .spent) :
+    (sessClauses (pre ++ env) (session r env n).1 (session r env n).2.2.length).all (·.2) = true := by
+  obtain ⟨h1, h2, h3⟩ := session_facts n r env he hs
+  have hsub := session_reported_sublist r env n he
+  simp only [sessClauses, List.all_cons, List.all_nil, Bool.and_true, Bool.and_eq_true]
+  refine ⟨?_, ?_, ?_, ?_⟩
+  · simpa using h1
+  · rw [List.isSublist_iff_sublist, failures_append]
+    exact List.Sublist.trans hsub (List.sublist_append_right _ _)
+  · by_cases hh : Res.hang ∈ (session r env n).1
+    · simp [h2 hh]
+    · simp [hh]
+  · apply closedIds_all
+    intro e he'
+    have := h3 e he'
+    simp only [List.contains_eq_mem, decide_eq_true_eq, failures_append]
+    exact List.mem_append_right _ this
+
+end Reconnect
+
+namespace Reconnect
+open ConnScript
+open Spec.Reconnect (failures reported closedIds sessClauses sessBuildClauses)
+
+theorem session_stored (r : R) (e : Nat) (env : List Ans) (n : Nat) (he : r.error = some e) :
+    session r env (n + 1) =
+      (.err e :: (session { r with error := none } env n).1,
+        (session { r with error := none } env n).2.1, (session { r with error := none } env n).2.2) := by
+  rw [session, serve_stored_error r e env he]
+
+/-- `session_clauses` for a state that may still hold an error stored while the (eager) channel
+was being built over the part `pre` of the script. -/
+theorem session_clauses' (r : R) (pre env : List Ans) (n : Nat) (hs : r.st ≠ .spent)
+    (hpre : (r.error.toList).Sublist (failures pre)) :
+    (sessClauses (pre ++ env) (session r env n).1 (session r env n).2.2.length).all (·.2) = true := by
+  cases he : r.error with
+  | none => exact session_clauses r pre env n he hs
+  | some e =>
+    cases n with
+    | zero => simp [session, sessClauses, reported, closedIds]
+    | succ n =>
+      rw [session_stored r e env n he]
+      have hs' : ({ r with error := none } : R).st ≠ .spent := hs
+      obtain ⟨h1, h2, h3⟩ := session_facts n { r with error := none } env rfl hs'
+      have hsub := session_reported_sublist { r with error := none } env n rfl
+      rw [he] at hpre
+      simp only [sessClauses, List.all_cons, List.all_nil, Bool.and_true, Bool.and_eq_true]
+      refine ⟨?_, ?_, ?_, ?_⟩
+      · simpa using h1
+      · rw [List.isSublist_iff_sublist, failures_append]
+        simp only [reported, List.filterMap_cons]
+        exact List.Sublist.append (l₁ := [e]) hpre hsub
+      · by_cases hh : Res.hang ∈ (session { r with error := none } env n).1
+        · simp [h2 hh]
+        · simp [hh]
+      · apply closedIds_all
+        intro e' he'
+        simp only [List.mem_cons] at he'
+        rcases he' with he' | he'
+        · cases he'
+        · have := h3 e' he'
+          simp only [List.contains_eq_mem, decide_eq_true_eq, failures_append]
+          exact List.mem_append_right _ this
+
+/-- The flat-script oracle (build clauses and session clauses) holds of everything the model does
+over any script, lazy or eager, for any number of calls. -/
+theorem channelSession_spec (isLazy : Bool) (env : List Ans) (n : Nat) :
+    (sessBuildClauses isLazy env (channelSession isLazy env n).1
+        (channelSession isLazy env n).2.2.2.length ++
+      sessClauses env (channelSession isLazy env n).2.1
+        (channelSession isLazy env n).2.2.2.length).all (·.2) = true := by
+  unfold channelSession
+  cases isLazy with
+  | true =>
+    simp only [if_true, List.all_append, Bool.and_eq_true]
+    refine ⟨by simp [sessBuildClauses], ?_⟩
+    simpa using session_clauses (R.init true) [] env n rfl (by simp [R.init])
+  | false =>
+    simp only [Bool.false_eq_true, if_false]
+    have hinit : (R.init false).st ≠ .spent := by simp [R.init]
+    obtain ⟨used, h1, h2, h3⟩ := driveLoop_consumes (R.init false) env rfl
+    obtain ⟨o1, o2, o3⟩ := driveLoop_outcome (R.init false) env hinit
+    have hce : connectEager env = driveLoop (R.init false) env := by
+      simp [connectEager, drive, R.init]
+    rw [hce]
+    rcases hd : driveLoop (R.init false) env with ⟨r', env', p⟩
+    rw [hd] at h1 h2 h3 o1 o2 o3
+    simp only at h1 h2 h3 o1 o2 o3
+    cases p with
+    | ready =>
+      simp only [List.all_append, Bool.and_eq_true]
+      refine ⟨by simp [sessBuildClauses], ?_⟩
+      rw [h1]
+      exact session_clauses' r' used env' n (o3 rfl).2 h2
+    | failed e =>
+      have := h3 e rfl
+      simp [sessBuildClauses, sessClauses, reported, closedIds, h1, failures_append, this]
+    | pending =>
+      simp [sessBuildClauses, sessClauses, reported, closedIds, o2 rfl]
+    | panic => exact absurd rfl o1
+
+end Reconnect
+
+namespace Reconnect
+open ConnScript
+open Spec.Reconnect (failures UnitObs UnitEv unitErrs contractOk unitClauses)
+
+/-! ### the single-operation oracle holds of every operation sequence -/
+
+def stNum : St → Nat
+  | .idle => 0
+  | .connecting => 1
+  | .spent => 1
+  | .connected _ => 2
+
+/-- How an operation of the model is seen through the hook (`ReconnectHook::state`). -/
+def toObs : UOut → UnitObs
+  | .polled .ready r => ⟨.ready, stNum r.st, r.error.isSome, r.hasBeen⟩
+  | .polled .pending r => ⟨.pending, stNum r.st, r.error.isSome, r.hasBeen⟩
+  | .polled (.failed e) r => ⟨.fail e, stNum r.st, r.error.isSome, r.hasBeen⟩
+  | .polled .panic _ => ⟨.pollPanic, 0, false, false⟩
+  | .called (.sent c) r => ⟨.sent c, stNum r.st, r.error.isSome, r.hasBeen⟩
+  | .called (.error e) r => ⟨.cerr e, stNum r.st, r.error.isSome, r.hasBeen⟩
+  | .called .panic _ => ⟨.callPanic, 0, false, false⟩
+
+theorem loop_spent (r : R) (env : List Ans) (hs : r.st ≠ .spent) :
+    (loop r env).2.2 ≠ .panic ∧
+    ((loop r env).1.st = .spent → ∃ e, (loop r env).2.2 = .failed e) := by
+  induction env generalizing r with
+  | nil => unfold loop; cases hst : r.st <;> simp_all
+  | cons a env ih =>
+    unfold loop
+    simp only [hs, if_false]
+    rcases hstep : step r a with ⟨r', _ | p⟩
+    · exact ih r' (step_not_spent hs hstep (Or.inl rfl))
+    · simp only
+      unfold step at hstep
+      repeat' split at hstep
+      all_goals simp_all
+      all_goals (try (obtain ⟨rfl, rfl⟩ := hstep; simp_all))
+
+theorem pollReady_facts (r : R) (env : List Ans) :
+    ((pollReady r env).2.2 = .panic → r.st = .spent) ∧
+    ((pollReady r env).2.2 = .ready → Callable (pollReady r env).1) ∧
+    ((pollReady r env).1.st = .spent → r.st = .spent ∨ ∃ e, (pollReady r env).2.2 = .failed e) := by
+  unfold pollReady
+  by_cases he : r.error.isSome = true
+  · simp [he, Callable]
+  · simp only [he]
+    refine ⟨?_, loop_ready_callable r env, ?_⟩
+    · intro hp
+      by_cases hs : r.st = .spent
+      · exact hs
+      · exact absurd hp (loop_spent r env hs).1
+    · intro hsp
+      by_cases hs : r.st = .spent
+      · exact Or.inl hs
+      · exact Or.inr ((loop_spent r env hs).2 hsp)
+
+theorem call_facts (r : R) :
+    (Callable r → (call r).2 ≠ .panic) ∧ (∀ e, (call r).2 = .error e → (call r).1.error = none) := by
+  unfold call Callable
+  cases he : r.error with
+  | some e => simp
+  | none => cases hst : r.st <;> simp [he]
+
+theorem runOps_contract (ops : List UOp) : ∀ (r : R) (env : List Ans) (pr fb : Bool),
+    (pr = true → Callable r) → (r.st = .spent → fb = true) →
+    contractOk pr fb ((runOps r env ops).1.map toObs) = true := by
+  induction ops with
+  | nil => intro r env pr fb _ _; simp [runOps, contractOk]
+  | cons op ops ih =>
+    intro r env pr fb hpr hfb
+    cases op with
+    | poll =>
+      unfold runOps
+      obtain ⟨f1, f2, f3⟩ := pollReady_facts r env
+      rcases hp : pollReady r env with ⟨r', env', p⟩
+      rw [hp] at f1 f2 f3
+      simp only at f1 f2 f3
+      cases p with
+      | panic => simp [toObs, contractOk, hfb (f1 rfl)]
+      | ready =>
+        simp only [reduceCtorEq, if_false]
+        simp only [List.map_cons, toObs, contractOk, Bool.true_and]
+        apply ih
+        · intro _; exact f2 rfl
+        · intro hsp
+          rcases f3 hsp with h | ⟨e, h⟩
+          · simp [hfb h]
+          · cases h
+      | pending =>
+        simp only [reduceCtorEq, if_false]
+        simp only [List.map_cons, toObs, contractOk, Bool.true_and]
+        apply ih
+        · intro h; simp at h
+        · intro hsp
+          rcases f3 hsp with h | ⟨e, h⟩
+          · simp [hfb h]
+          · cases h
+      | failed e =>
+        simp only [reduceCtorEq, if_false]
+        simp only [List.map_cons, toObs, contractOk, Bool.true_and]
+        apply ih
+        · intro h; simp at h
+        · intro _; simp
+    | call =>
+      unfold runOps
+      obtain ⟨c1, _⟩ := call_facts r
+      have hst := call_st r
+      rcases hc : call r with ⟨r', o⟩
+      rw [hc] at c1 hst
+      simp only at c1 hst
+      cases o with
+      | panic =>
+        have : pr = false := by
+          cases pr with
+          | false => rfl
+          | true => exact absurd rfl (c1 (hpr rfl))
+        simp [toObs, contractOk, this]
+      | sent c =>
+        simp only [reduceCtorEq, if_false]
+        simp only [List.map_cons, toObs, contractOk, Bool.true_and]
+        apply ih
+        · intro h; simp at h
+        · intro hsp; rw [hst] at hsp; simp [hfb hsp]
+      | error e =>
+        simp only [reduceCtorEq, if_false]
+        simp only [List.map_cons, toObs, contractOk, Bool.true_and]
+        apply ih
+        · intro h; simp at h
+        · intro hsp; rw [hst] at hsp; simp [hfb hsp]
+
+end Reconnect
+
+namespace Reconnect
+open ConnScript
+open Spec.Reconnect (failures UnitObs UnitEv unitErrs contractOk unitClauses)
+
+theorem unitErrs_toObs (os : List UOut) : unitErrs (os.map toObs) = handed os := by
+  induction os with
+  | nil => rfl
+  | cons o os ih =>
+    simp only [List.map_cons, unitErrs, handed, List.filterMap_cons] at ih ⊢
+    rcases o with ⟨p, r⟩ | ⟨c, r⟩
+    · cases p <;> simp [toObs, ih]
+    · cases c <;> simp [toObs, ih]
+
+theorem stNum_eq_two (s : St) : (stNum s == 2) = true ↔ ∃ c, s = .connected c := by
+  cases s <;> simp [stNum]
+
+/-- Per-operation facts: a ready poll leaves a callable state; a call that hands out an error
+leaves none behind. -/
+theorem runOps_pointwise (ops : List UOp) : ∀ (r : R) (env : List Ans),
+    ∀ o ∈ (runOps r env ops).1,
+      (∀ r', o = .polled .ready r' → Callable r') ∧
+      (∀ e r', o = .called (.error e) r' → r'.error = none) := by
+  induction ops with
+  | nil => intro r env o ho; simp [runOps] at ho
+  | cons op ops ih =>
+    intro r env o ho
+    cases op with
+    | poll =>
+      unfold runOps at ho
+      obtain ⟨_, f2, _⟩ := pollReady_facts r env
+      rcases hp : pollReady r env with ⟨r', env', p⟩
+      rw [hp] at ho f2
+      simp only at ho f2
+      by_cases hpan : p = .panic
+      · subst hpan
+        simp at ho
+        subst ho
+        exact ⟨(by intro r'' h; cases h), (by intro e r'' h; cases h)⟩
+      · simp only [hpan, if_false, List.mem_cons] at ho
+        rcases ho with rfl | ho
+        · refine ⟨?_, (by intro e r'' h; cases h)⟩
+          intro r'' h
+          cases h
+          exact f2 rfl
+        · exact ih r' env' o ho
+    | call =>
+      unfold runOps at ho
+      obtain ⟨_, c2⟩ := call_facts r
+      rcases hc : call r with ⟨r', co⟩
+      rw [hc] at ho c2
+      simp only at ho c2
+      by_cases hpan : co = .panic
+      · subst hpan
+        simp at ho
+        subst ho
+        exact ⟨(by intro r'' h; cases h), (by intro e r'' h; cases h)⟩
+      · simp only [hpan, if_false, List.mem_cons] at ho
+        rcases ho with rfl | ho
+        · refine ⟨(by intro r'' h; cases h), ?_⟩
+          intro e r'' h
+          cases h
+          exact c2 e rfl
+        · exact ih r' env o ho
+
+/-- The single-operation oracle holds of everything the model does, for any sequence of
+`poll_ready` / `call` on any script. -/
+theorem runOps_spec (l : Bool) (env : List Ans) (ops : List UOp) :
+    (unitClauses env ((runOps (R.init l) env ops).1.map toObs)).all (·.2) = true := by
+  simp only [unitClauses, List.all_cons, List.all_nil, Bool.and_true, Bool.and_eq_true]
+  refine ⟨?_, ?_, ?_, ?_⟩
+  · exact runOps_contract ops (R.init l) env false false (by simp) (by simp [R.init])
+  · simp only [List.all_eq_true, List.mem_map]
+    rintro _ ⟨o, ho, rfl⟩
+    obtain ⟨h1, _⟩ := runOps_pointwise ops (R.init l) env o ho
+    rcases o with ⟨p, r⟩ | ⟨c, r⟩
+    · cases p with
+      | ready =>
+        rcases h1 r rfl with h | ⟨c, h⟩
+        · simp [toObs, h]
+        · simp [toObs, h, stNum]
+      | pending => simp [toObs]
+      | failed e => simp [toObs]
+      | panic => simp [toObs]
+    · cases c <;> simp [toObs]
+  · simp only [List.all_eq_true, List.mem_map]
+    rintro _ ⟨o, ho, rfl⟩
+    obtain ⟨_, h2⟩ := runOps_pointwise ops (R.init l) env o ho
+    rcases o with ⟨p, r⟩ | ⟨c, r⟩
+    · cases p <;> simp [toObs]
+    · cases c with
+      | error e => simp [toObs, h2 e r rfl]
+      | sent c => simp [toObs]
+      | panic => simp [toObs]
+  · rw [List.isSublist_iff_sublist, unitErrs_toObs]
+    simpa [R.init] using runOps_handed_sublist (R.init l) env ops
+
+end Reconnect
